@@ -33,7 +33,7 @@ Section Spec.
     end.
 
   (* field-wise "new if present else old" *)
-  Fixpoint overlay (new old : item) : item :=
+  Fixpoint overlay (new old : item) {struct old} : item :=
     match old with
     | [] => []
     | o :: orest =>
@@ -44,7 +44,7 @@ Section Spec.
     end.
 
   (* clear the named fields (the elements struct mirrors the item field by field) *)
-  Fixpoint clear (el : list bool) (it : item) : item :=
+  Fixpoint clear (el : list bool) (it : item) {struct it} : item :=
     match it with
     | [] => []
     | x :: r =>
@@ -147,8 +147,9 @@ Section Spec.
 
   Fixpoint lex_le (a b : list N) : bool :=
     match a, b with
+    | [], _ => true
+    | _ :: _, [] => false
     | x :: a', y :: b' => if N.eqb x y then lex_le a' b' else N.ltb x y
-    | _, _ => true
     end.
 
   Fixpoint ordered (l : list item) : bool :=
